@@ -212,7 +212,10 @@ func expectAttr(c, k sb.V, args []sb.V) expect {
 		switch {
 		case k.K == "str" && k.S == "Title":
 			return expect{mode: "elem", repr: strconv.Quote(c.S)}
-		case k.K == "str" && (k.S == "Meta" || k.S == "Describe"):
+		case k.K == "str" && k.S == "Describe":
+			// a method promoted through the nil embedded pointer cannot be reached
+			return expect{mode: "error"}
+		case k.K == "str" && k.S == "Meta":
 			return expect{mode: "nopanic"}
 		}
 		return expect{mode: "error"}
@@ -501,7 +504,7 @@ func c16Keys() []sb.V {
 	return []sb.V{
 		vstr("a"), vstr("b"), vstr("zz"), vstr("0"), vstr("1"), vstr("n"), vstr(""), vstr("7"),
 		vstr("url"), vstr("zero"), vstr("Get"), vstr("Encode"), vstr("Next"), {K: "safe", TS: []string{"html"}, E: []sb.V{vstr("a")}}, {K: "safe", TS: []string{"js"}, E: []sb.V{vnum(1)}}, {K: "safe", TS: []string{"html"}, E: []sb.V{vk("int", 7)}},
-		vstr("Title"), vstr("Description"), vstr("Meta"), vstr("title"), vstr("self"), vstr("missing"), sb.V{K: "nan"}, {K: "arrayofany"},
+		vstr("Title"), vstr("Description"), vstr("Describe"), vstr("Meta"), vstr("title"), vstr("self"), vstr("missing"), sb.V{K: "nan"}, {K: "arrayofany"},
 		vstr("Name"), vstr("Age"), vstr("Tags"), vstr("M"), vstr("Inner"), vstr("priv"), vstr("Extra"), vstr("Person"), vstr("Nope"), vstr("unexported"),
 		vnum(0), vnum(1), vnum(2), vnum(3), vnum(-1), vnum(7), vnum(1.5), vnum(2.5), vnum(1e30), vnum(-1e30),
 		vk("int", 0), vk("int", 1), vk("int", 7), vk("int", -1), vk("uint8", 2), vk("uint8", 3), vk("uint8", 255), vk("int8", -1), vk("int16", -1), vk("int32", -1), vk("int64", 0), vk("float32", 1), vk("uint64", 9),
